@@ -1,9 +1,12 @@
 #!/bin/sh
-# For every stored seeded change: apply it to /repo itself, run the quick check of its property, undo it
-# straight afterwards (the procedure of the brief).  Prints one line per change.
+# For every stored seeded change (or those whose name matches $1, a shell pattern such as 'C*-[E-L]'): apply it to
+# /repo itself, run the quick check of its property, undo it straight afterwards (the procedure of the brief).
+# Prints one line per change.  Evidence of these runs goes to /dev/shm, never to /verif/evidence.
 cd /verif || exit 2
+pat=${1:-C*-[A-Z]}
 mkdir -p /dev/shm/fv_seed_evidence
-for d in seeded/C*-[ABCD]; do
+for d in seeded/$pat; do
+  [ -f "$d/patch.diff" ] || continue
   name=$(basename "$d"); prop=${name%-*}
   if ! git -C /repo apply --check "/verif/$d/patch.diff" 2>/dev/null; then echo "$name: patch does not apply"; continue; fi
   git -C /repo apply "/verif/$d/patch.diff"
